@@ -1,13 +1,13 @@
 #!/bin/bash
-# usage: benign.sh <AREA>...  — take harmless changes /tmp/ben_<AREA>/_out/b{1..4}_patch.diff, store them under /verif/benign/<AREA>_b<k>/,
+# usage: [PREFIX=ben2 SUFFIX=2] benign.sh <AREA>...  — take harmless changes /tmp/ben_<AREA>/_out/b{1..4}_patch.diff, store them under /verif/benign/<AREA>_b<k>/,
 # check that the baseline suite still passes with each, and run every claimed check against it in isolation: any alarm is a false alarm
 # (or the change is not harmless after all) and needs a look.
 cd /verif
 mkdir -p work/iso benign
 for a in "$@"; do
   for k in 1 2 3 4 5; do
-    src=/tmp/ben_$a/_out
-    name=${a}_b$k
+    src=/tmp/${PREFIX:-ben}_$a/_out
+    name=${a}${SUFFIX}_b$k
     d=benign/$name
     if [ -f $src/b${k}_patch.diff ]; then
       mkdir -p $d; cp $src/b${k}_patch.diff $d/patch.diff; cp $src/b${k}_meta.txt $d/notes.txt 2>/dev/null
